@@ -120,7 +120,7 @@ func c07Gen(r *driver.Rand, thorough bool) *driver.Plan {
 			}
 		}
 	}
-	p := c07Base(sm, n, driver.Pick(r, caps...), fail)
+	p := c07Base(sm, n, genCap(r), fail)
 	p.Fn = r.Intn(60)
 	if sm.stage == "Emit" {
 		p.IntervalMs = driver.Pick(r, 1, 10, 100)
